@@ -9,7 +9,8 @@ TRUSTED = sc.SIM_TRUSTED + [
     "translator harness/extract_tables.py: registration tables by running build() of every shipped model, handler bodies by an AST walk; "
     "its output is compiled on every run (wf_* / shipped_* obligations by decide, wf_sound proved)",
     "networkx.Graph add/remove node/edge and iteration order as modelled by Comp.Net (exercised by every history)"]
-ASSUMPTIONS = ["node labels are not tuples: with tuple labels (networkx lattices) set-up raises KeyError — known finding K3, reproduced on every run",
+ASSUMPTIONS = ["compartments named in API calls are declared by the model (a change to an undeclared compartment is outside C01.Legal; seeded change C01_j lives there)",
+               "node labels are not tuples: with tuple labels (networkx lattices) set-up raises KeyError — known finding K3, reproduced on every run",
                "API contract (C01.Legal): operations name existing nodes; setCompartment is for a node without a compartment; addNode for a new name",
                "topology operations are performed by the instance owning the loci (C01.OneInst); a sibling process in a sequence is not told (finding K2 of C19)"]
 RULE = ("histories of setCompartment/changeCompartment/addNode/removeNode/addEdge/removeEdge on a scripted compartmented model with random node, edge "
@@ -46,7 +47,7 @@ def _jobs(ctx):
     q = ctx.quick()
     n = 40 if q else 500
     return (sc.corpus_job(ctx) + [(f'ops{k}', ['ops', n]) for k in range(8 if q else 12)]
-            + [(f'ship{k}', ['shipped', n]) for k in range(4 if q else 8)] + [('vacc', ['vacc', n]), ('named', ['composed', n]), ('tuples', ['tuplelabels', 6 if q else 20]), ('forced', ['forced', n]), ('adaptive', ['adaptive', n])])
+            + [(f'ship{k}', ['shipped', n]) for k in range(4 if q else 8)] + [(f'vacc{k}', ['vacc', n]) for k in range(3 if q else 6)] + [('named', ['composed', n]), ('tuples', ['tuplelabels', 6 if q else 20]), ('forced', ['forced', n]), ('adaptive', ['adaptive', n])])
 
 
 def _nontrivial(e):
